@@ -82,7 +82,7 @@ pub fn err_kind(e: &str) -> String {
     parts.join(".")
 }
 
-pub const BUDGET: u64 = 2_000_000;
+pub const BUDGET: u64 = 60_000;
 
 pub fn quiet_panics() { std::panic::set_hook(Box::new(|_| {})); }
 
